@@ -163,11 +163,34 @@ def check_after(ctx, what, after, expect_tags, data, expect_nopad=False):
             ctx.disagree("fam.flac", "%s: padding left after delete" % what, dict(data, padding=p["padding"]))
 
 
+def sess_step(ctx, f, obj, op, tags=None, mode="none"):
+    """one step of the Coq session model (Model.Fam_flac.sess_step): returns (file', obj' or None)"""
+    r = ctx.model.call("flac_sess_step", hx(f), "none" if obj is None else enc_blocks(obj), op,
+                       hx(tags[0]) if tags is not None else "none", enc_comments(tags[1]) if tags is not None else "-", mode)
+    if not r.startswith("ok "):
+        return None, None
+    _, f2, ob = r.split(" ")
+    return unhx(f2), (None if ob == "none" else dec_blocks(ob))
+
+
+def same_or_rerender(ctx, a, b):
+    if a == b:
+        return True
+    if only_rerender_diff(ctx, a, b):
+        ctx.count("flac:rerender-diff")
+        return True
+    return False
+
+
 def check_step(ctx, kind, st):
+    """The live mutagen object is shadowed by the object component of the Coq session model: every operation of the
+    engine is also performed by Model.Fam_flac.sess_step (the function the history theorems C02/C03_flac_session are
+    about) and must produce the same file."""
     S = _S
     if not S.vm_done:
         S.vm_done = True
         vm_crosscheck(ctx)
+        lenient_stream(ctx)
     if st.wbefore is not S.prev_w or S.prev_w is None:
         S.obj = None          # a new history starts with a new Runner
         S.vendor = None
@@ -175,19 +198,20 @@ def check_step(ctx, kind, st):
     data = {"kind": kind.name, "op": st.brief(), "before_len": len(st.before), "before_head": st.before[:64].hex()}
     big = len(st.before) > LIMIT or len(st.after) > LIMIT
     op = st.op
-    # ---- the engine (re)opens the file
+    # ---- the engine (re)opens the file before any operation when it holds no object
     opened = False
     if S.obj is None or op in ("fresh", "reload"):
         if big:
             ctx.count("flac:skip-large")
             S.obj = "?"
         else:
-            bs, err = model_open(ctx, st.before)
+            _, bs = sess_step(ctx, st.before, None, "reload")
             ctx.corr_cases += 1
             if bs is None:
                 # the model cannot load the file: mutagen must have failed too
-                if st.exc is None or exc_name(st.exc) != err[6:]:
-                    ctx.disagree("fam.flac", "open: model %s, mutagen %s" % (err, exc_name(st.exc)), data)
+                r = ctx.model.call("flac_open", hx(st.before))
+                if st.exc is None or exc_name(st.exc) != r[6:]:
+                    ctx.disagree("fam.flac", "open: model %s, mutagen %s" % (r[:40], exc_name(st.exc)), data)
                 S.obj = None
                 return
             S.obj = bs
@@ -208,22 +232,21 @@ def check_step(ctx, kind, st):
     obj = S.obj
     if op == "set":
         if S.vendor is None:
-            obj.append([4, -1, b""])          # add_tags(): a new VCFLACDict at the end of metadata_blocks
-            S.vendor = default_vendor()
+            S.vendor = default_vendor()       # add_tags(): a new VCFLACDict appended to metadata_blocks
+            _, S.obj = sess_step(ctx, st.before, obj, "addtags", (S.vendor, []))
     elif op in ("save", "fresh"):
         if big:
             ctx.count("flac:skip-large")
+            S.obj = "?"
         else:
             mode = MODES[st.arg if op == "save" else "none"]
-            if st.mem is None:
-                tags = None
+            tags = None if st.mem is None else (S.vendor, list(st.exp_indep))
+            if tags is None:
                 reply = ctx.model.call("flac_save_obj", hx(st.before), enc_blocks(obj), "none", "-", mode, "0")
+            elif opened and op == "fresh" and any(b[0] == 4 for b in obj):
+                reply = ctx.model.call("flac_save", hx(st.before), hx(tags[0]), enc_comments(tags[1]), mode, "0")
             else:
-                tags = (S.vendor, list(st.exp_indep))
-                if opened and op == "fresh" and any(b[0] == 4 for b in obj):
-                    reply = ctx.model.call("flac_save", hx(st.before), hx(tags[0]), enc_comments(tags[1]), mode, "0")
-                else:
-                    reply = ctx.model.call("flac_save_obj", hx(st.before), enc_blocks(obj), hx(tags[0]), enc_comments(tags[1]), mode, "0")
+                reply = ctx.model.call("flac_save_obj", hx(st.before), enc_blocks(obj), hx(tags[0]), enc_comments(tags[1]), mode, "0")
             ctx.corr_cases += 1
             parts = compare_bytes(ctx, "save", reply, st.after, st.exc, data)
             if parts and st.cb and len(parts) >= 4 and parts[2] != "-":
@@ -231,6 +254,10 @@ def check_step(ctx, kind, st):
                 if (zp(parts[2]), zp(parts[3])) != (p_in, size_in):
                     ctx.disagree("fam.flac", "save: padding callback received different (info.padding, info.size)",
                                  dict(data, model=[zp(parts[2]), zp(parts[3])], impl=[p_in, size_in]))
+            f2, obj2 = sess_step(ctx, st.before, obj, "save", tags, mode)
+            if f2 is None or not same_or_rerender(ctx, f2, st.after):
+                ctx.disagree("fam.flac", "save: session model (sess_step) gives a different file", data)
+            S.obj = obj2
             if st.exc is None:
                 check_after(ctx, "save", st.after, tags if tags is not None else "skip", data)
                 ctx.count("flac:save-compared")
@@ -239,25 +266,22 @@ def check_step(ctx, kind, st):
     elif op == "delete":
         if big:
             ctx.count("flac:skip-large")
+            S.obj = "?"
         else:
             reply = ctx.model.call("flac_delete_obj", hx(st.before), enc_blocks(obj))
             ctx.corr_cases += 1
             compare_bytes(ctx, "delete", reply, st.after, st.exc, data)
-            had = S.vendor is not None
+            had = any(b[0] == 4 for b in obj)
+            f2, obj2 = sess_step(ctx, st.before, obj, "delete")
+            if f2 is None or not same_or_rerender(ctx, f2, st.after):
+                ctx.disagree("fam.flac", "delete: session model (sess_step) gives a different file", data)
+            S.obj = obj2
             if st.exc is None:
-                check_after(ctx, "delete", st.after, None if had else "skip", data, expect_nopad=had)
+                # a live object that got its tags from add_tags and was never saved has a comment block the file lacks
+                p = model_parse(ctx, st.before)
+                infile = p is not None and any(b[0] == 4 for b in p["blocks"])
+                check_after(ctx, "delete", st.after, None if (had or not infile) else "skip", data, expect_nopad=had or S.vendor is not None)
                 ctx.count("flac:delete-compared")
-            if had:
-                first = True
-                nb = []
-                for b in obj:
-                    if b[0] == 4:
-                        if first:
-                            nb.append(b)
-                        first = False
-                    else:
-                        nb.append(b)
-                S.obj = nb
     elif op == "moddelete":
         if big:
             ctx.count("flac:skip-large")
@@ -265,6 +289,9 @@ def check_step(ctx, kind, st):
             reply = ctx.model.call("flac_delete", hx(st.before))
             ctx.corr_cases += 1
             compare_bytes(ctx, "module delete", reply, st.after, st.exc, data)
+            f2, _ = sess_step(ctx, st.before, obj, "moddelete")
+            if f2 is None or not same_or_rerender(ctx, f2, st.after):
+                ctx.disagree("fam.flac", "module delete: session model (sess_step) gives a different file", data)
             if st.exc is None:
                 p = model_parse(ctx, st.before)
                 had = p is not None and any(b[0] == 4 for b in p["blocks"])
@@ -310,8 +337,11 @@ def extra_layouts(ctx, st, data):
     id3 = None
     if rng.random() < 0.6:
         id3 = bytes([rng.randrange(256) for _ in range(rng.choice([0, 1, 127, 128, 300]))])
-    if rng.random() < 0.3:
+    r = rng.random()
+    if r < 0.3:
         audio = audio + b"TAG" + bytes(125)
+    elif r < 0.45:
+        audio = audio[:rng.choice([0, 2, 10, 100, 127, 128, 130])]      # (nearly) no audio: the ID3v1 test of deleteid3 looks into the metadata
     r = ctx.model.call("flac_build", hx(id3) if id3 is not None else "none", enc_blocks(blocks), hx(audio))
     if not r.startswith("ok "):
         ctx.disagree("fam.flac", "flac_build failed", dict(data, reply=r[:100]))
@@ -443,3 +473,52 @@ def vm_crosscheck(ctx):
             ok = rm.startswith("ok ") and unhx(rm.split(" ")[1]) == bts
         if not ok:
             ctx.disagree("fam.flac.vm_shard", "%s: extracted binary and vm_compute differ" % key[0], {"file": key[1].hex(), "binary": rm[:120], "vm": r[:120]})
+
+
+# ---------------------------------------------------------------------------------- malformed stream
+def lenient_stream(ctx):
+    """the mirror of mutagen's lenient reader (flac_open: _distrust_size blocks read by content, load-time checks) against
+    FLAC(fileobj) on every tests/data/*.flac -- including the malformed ones the theorems exclude -- and on truncated /
+    corrupted / stretched variants: same outcome class, same block types, same raw sizes of the blocks kept raw (once per run)"""
+    import glob, os
+    from mutagen.flac import FLAC
+    from .kinds import DATA
+    rng = ctx.rng
+    for pth in sorted(glob.glob(os.path.join(DATA, "*.flac"))):
+        d0 = open(pth, "rb").read()
+        if len(d0) > 60_000:
+            continue
+        for i in range(16 if ctx.thorough else 7):
+            d = bytearray(d0)
+            k = rng.random()
+            if i == 0:
+                pass
+            elif k < 0.3:
+                d = d[:rng.randrange(0, min(len(d), 900))]
+            elif k < 0.8:
+                for _ in range(rng.choice([1, 1, 2, 4])):
+                    pos = rng.randrange(0, min(len(d), rng.choice([8, 50, 300, 900])))
+                    d[pos] = rng.choice([0, 1, 2, 3, 4, 5, 6, 7, 0x7f, 0x80, 0x81, 0x84, 0xff, rng.randrange(256)])
+            else:
+                pos = rng.randrange(0, min(len(d), 600))
+                d[pos:pos] = bytes(rng.randrange(256) for _ in range(rng.choice([1, 4, 40])))
+            d = bytes(d)
+            try:
+                o = FLAC(io.BytesIO(d))
+                exc = None
+            except mutagen.MutagenError:
+                exc = "MutagenError"
+            except Exception as e:
+                exc = type(e).__name__
+            bs, err = model_open(ctx, d)
+            ctx.corr_cases += 1
+            ctx.count("flac:malformed-stream")
+            mexc = None if bs is not None else err[6:]
+            info = {"sample": os.path.basename(pth), "variant": i, "head": d[:80].hex(), "len": len(d)}
+            if exc != mexc:
+                ctx.disagree("fam.flac", "lenient reader: mutagen %s, model %s" % (exc, mexc), info)
+            elif exc is None:
+                shape = [(b.code, len(b.write()) if b.code not in (0, 3, 4, 5, 6) else None) for b in o.metadata_blocks]
+                mshape = [(b[0], len(b[2]) if b[0] not in (0, 3, 4, 5, 6) else None) for b in bs]
+                if shape != mshape:
+                    ctx.disagree("fam.flac", "lenient reader: block lists differ", dict(info, impl=str(shape)[:200], model=str(mshape)[:200]))
